@@ -11,8 +11,10 @@ UM = 'util::verif_kani::'
 for h, d in [('k', 'k / kib / kb in both cases'), ('m', 'm / mib / mb'), ('g', 'g / gib / gb'), ('t', 't / tib / tb'), ('b', 'b and bare numbers'),
              ('frac', 'fractional numbers incl. a fraction with a leading zero (1.0625K = 1088)'), ('space', 'a blank between number and unit'), ('bad', 'non-literals are rejected')]:
     OBLIGATIONS.append(ob(f'C14.whole.{h}', UM + f'c14_whole_{h}', f'the REAL parse_filesize (whole function) on concrete witness literals: {d}', engine='K', units=['utilmod'], complete=False, bound='concrete witness literals'))
-CANARIES = [dict(harness=FS + 'canary_filesize_must_fail', units=['filesize']), dict(harness=UM + 'canary_utilmod_must_fail', units=['utilmod'])]
+for h, d in [('flags', 'no unit: default / d / c / s flags and the precision default'), ('units', 'k kib kb ck m mib mb'), ('units_large', 'g gib gb t tib tb b and combined flags')]:
+    OBLIGATIONS.append(ob(f'C14.format.{h}', 'verif_frag::sizefmt::c14_format_' + h, f'option table of format_filesize (verbatim, shim humansize): {d} select the documented base, fixed unit and precision', units=['sizefmt'], complete=False, bound='concrete specifier unit strings from the documentation table'))
+CANARIES = [dict(harness=FS + 'canary_filesize_must_fail', units=['filesize']), dict(harness=UM + 'canary_utilmod_must_fail', units=['utilmod']), dict(harness='verif_frag::sizefmt::canary_sizefmt_must_fail', units=['sizefmt'])]
 ASSUMPTIONS = ['std: to_ascii_lowercase, replace(" ", ""), ends_with, slicing and str::parse::<f64>/<u64> behave as documented (T2)',
                'letter case: the ladder runs on the lower-cased literal (prologue checked by shape)']
-NOT_COVERED = ['fractional literals (f64 parse)', 'Variant::to_int / to_float coercion that calls parse_filesize', 'format_filesize (regex + humansize)', 'rendering monotonicity and round trip']
+NOT_COVERED = ['fractional literals (f64 parse)', 'Variant::to_int / to_float coercion that calls parse_filesize', 'format_filesize: the specifier regex, humansize rendering, monotonicity and round trip']
 HARNESS_TIMEOUT = 1500
